@@ -1,5 +1,6 @@
 ---- MODULE MC_AsyncRef ----
 EXTENDS AsyncRef
 KAll == {"coro", "gen", "plain"}
+KBad == {"coro", "bad", "plain"}
 KCoro == {"coro", "plain"}
 ====
